@@ -221,6 +221,117 @@ def checks_for(c, o):
     return out
 
 
+
+# --------------------------------------------------------------------------------------------------
+# LOS with parallax errors (sigmas)
+# --------------------------------------------------------------------------------------------------
+
+def los_sigma_cases(ctx):
+    rng = ctx.rng(3504)
+    out = []
+    for i in range(10 if ctx.quick else 60):
+        shape, dist = gen_grid(rng, maxdim=2)
+        d = len(shape)
+        L = [shape[k] * dist[k] for k in range(d)]
+        st, en, sg = [], [], []
+        for _ in range(int(rng.integers(1, 4))):
+            s = [dy(rng, -0.25, 0.75, 4) * L[k] for k in range(d)]
+            e = [dy(rng, 0.0, 1.0, 4) * L[k] for k in range(d)]
+            if all(abs(a - b) < 1e-3 for a, b in zip(s, e)):
+                e[0] = s[0] + dist[0]
+            ln = float(np.linalg.norm(np.array(e) - np.array(s)))
+            frac = [0.0, 0.25, 0.5, 0.75][int(rng.integers(0, 4))]
+            st.append(s)
+            en.append(e)
+            sg.append(frac / (3.0 * ln))
+        out.append({"kind": "los_sigma", "shape": shape, "dist": dist, "starts": st, "ends": en, "sigmas": sg})
+    return out
+
+
+def los_sigma_reference(c):
+    """per line: implementation row, exact per-pixel (length, mid-point distance) of the extended segment,
+    and the documented weight  length * [1 | sf((1/mid - 1/dist)/sigma) | 0]."""
+    import nifty.cl as ift
+    from scipy.special import erfc
+    dom = ift.RGSpace(tuple(c["shape"]), distances=tuple(c["dist"]))
+    op = ift.LOSResponse(dom, np.array(c["starts"], dtype=float).T, np.array(c["ends"], dtype=float).T,
+                         sigmas=np.array(c["sigmas"], dtype=float))
+    M = dense(op)
+    out = []
+    for s, e, sig, row in zip(c["starts"], c["ends"], c["sigmas"], M):
+        s, e = np.array(s, float), np.array(e, float)
+        ln = float(np.linalg.norm(e - s))
+        lo, hi = 1.0 / (1.0 / ln + 3.0 * sig), 1.0 / (1.0 / ln - 3.0 * sig)
+        real_end = s + (e - s) / ln * hi
+        pieces = exact_los_pieces(c["shape"], c["dist"], s.tolist(), real_end.tolist())
+        want = np.zeros(len(row))
+        info = []
+        for j, (t0, t1) in pieces.items():
+            length = float(t1 - t0) * hi
+            md = float((t0 + t1) / 2) * hi
+            if md > hi:
+                f = 0.0
+            elif md > lo and sig > 0:
+                f = 0.5 * erfc(((-1.0 / md + 1.0 / ln) / sig) / math.sqrt(2.0))
+            else:
+                f = 1.0
+            want[j] = length * f
+            info.append((j, length, md))
+        out.append({"row": row, "want": want, "lo": lo, "hi": hi, "len": ln, "sig": sig, "pieces": info})
+    return out
+
+
+def exact_los_pieces(shape, dist, s, e):
+    """like exact_los_row, but returns the parameter interval (t0, t1) per pixel"""
+    d = len(shape)
+    S = [Fraction(x) for x in s]
+    E = [Fraction(x) for x in e]
+    D = [Fraction(x) for x in dist]
+    out = {}
+    for idx in itertools.product(*[range(n) for n in shape]):
+        t0, t1 = Fraction(0), Fraction(1)
+        ok = True
+        for k in range(d):
+            lo, hi = (idx[k] - Fraction(1, 2)) * D[k], (idx[k] + Fraction(1, 2)) * D[k]
+            dr = E[k] - S[k]
+            if dr == 0:
+                if not (lo <= S[k] < hi) or (idx[k] == 0 and S[k] == lo):
+                    ok = False
+                    break
+            else:
+                a, b = (lo - S[k]) / dr, (hi - S[k]) / dr
+                if a > b:
+                    a, b = b, a
+                t0, t1 = max(t0, a), min(t1, b)
+        if ok and t1 > t0:
+            out[int(np.ravel_multi_index(idx, shape))] = (t0, t1)
+    return out
+
+
+def los_sigma_checks(c, ref):
+    """regime of every sub-segment (from the ratio implementation weight / exact length) against erf_regime"""
+    out = []
+    for r in ref:
+        if r["sig"] == 0:
+            continue
+        for j, length, md in r["pieces"]:
+            if length < 1e-3 * r["len"] or min(abs(md - r["lo"]), abs(md - r["hi"])) < 1e-4 * r["len"]:
+                continue
+            ratio = r["row"][j] / length
+            obs = 0 if ratio > 1 - 1e-4 else (2 if ratio < 1e-4 else 1)
+            out.append(("los-regime", "regime_case %s %s %s %d" % (C.cq(r["lo"]), C.cq(r["hi"]), C.cq(md), obs)))
+    return out
+
+
+def los_sigma_failure(c, ref):
+    for i, r in enumerate(ref):
+        tol = 3e-6 * r["hi"] + 1e-12
+        if np.max(np.abs(r["row"] - r["want"])) > tol:
+            j = int(np.argmax(np.abs(r["row"] - r["want"])))
+            return ("los-parallax", "line %d (length %.6g, sigma %.4g: near / far truncation %.6g / %.6g): pixel %d gets weight %.9g, documented %.9g" % (
+                i, r["len"], r["sig"], r["lo"], r["hi"], j, r["row"][j], r["want"][j]))
+    return None
+
 # --------------------------------------------------------------------------------------------------
 # direct oracle
 # --------------------------------------------------------------------------------------------------
@@ -370,6 +481,8 @@ def direct_failure(c):
         return _direct_nufft(c)
     if k == "shiftfft":
         return _direct_shiftfft(c)
+    if k == "los_sigma":
+        return los_sigma_failure(c, los_sigma_reference(c))
     if k == "sampling_los":
         return _direct_sampling_los(c)
     raise ValueError(k)
@@ -492,6 +605,7 @@ class C35(C.Check):
     def correspondence(self, ctx, res):
         cases = [c for c in ctx.corpus() if c.get("kind") in ("interp", "los", "regrid", "pad", "mask")]
         cases += interp_cases(ctx) + los_cases(ctx) + ops_cases(ctx)
+        self.sigma_obs = []
         checks, meta, dist = [], [], {}
         self.cases, self.obs = [], []
         nontriv = set()
@@ -512,6 +626,18 @@ class C35(C.Check):
                 nontriv.add((c["kind"], len(c["shape"]), min(nz, 12), bool(c.get("product"))))
             else:
                 nontriv.add((c["kind"], c.get("central"), c.get("n_new", 0) > c.get("n", 0)))
+        for c in [c for c in ctx.corpus() if c.get("kind") == "los_sigma"] + los_sigma_cases(ctx):
+            try:
+                ref = los_sigma_reference(c)
+            except Exception as e:
+                res.add_broken("correspondence", "implementation raised", {"case": _js(c), "error": repr(e)[:300]})
+                continue
+            self.sigma_obs.append((c, ref))
+            for lab, t in los_sigma_checks(c, ref):
+                checks.append(t)
+                meta.append((lab, c))
+                dist[lab] = dist.get(lab, 0) + 1
+            nontriv.add(("los_sigma", len(c["shape"]), tuple(round(x * 1e3) for x in c["sigmas"])))
         name = "corr%d" % os.getpid()
         try:
             bad = C.eval_cases(self.prop, name, HEADER, checks)
@@ -528,7 +654,7 @@ class C35(C.Check):
         self.bad_cases = [meta[i][1] for i in bad]
         res.coverage.update({
             "evaluations": len(checks), "distinct_nontrivial": len(nontriv),
-            "rule": "generated RGSpaces (1-3 axes, 2-5 pixels, pixel sizes 1/4..2), dyadic sampling positions (grid points, inside, outside/negative: periodic wrap), dyadic segment end points (inside/outside the volume, axis aligned, through pixel corners and along pixel boundaries), regridding with dyadic ratios, padding n -> n..n+3 (end / central), random masks incl. all/none; one check per matrix row; distinct = (kind, dimension, number of non-zero entries) resp. (kind, central, grows)",
+            "rule": "generated RGSpaces (1-3 axes, 2-5 pixels, pixel sizes 1/4..2), dyadic sampling positions (grid points, inside, outside/negative: periodic wrap), dyadic segment end points (inside/outside the volume, axis aligned, through pixel corners and along pixel boundaries), LOS with parallax errors (sigmas, truncation 3): for every sub-segment the treatment (full / survival-function weighted / dropped, read off the ratio weight / exact length) against erf_regime; regridding with dyadic ratios, padding n -> n..n+3 (end / central), random masks incl. all/none; one check per matrix row; distinct = (kind, dimension, number of non-zero entries) resp. (kind, central, grows)",
             "samples": [_js(c) for c in self.cases[:2]],
             "input_distribution": dist, "disagreements": len(bad), "exhaustive": False,
         })
@@ -551,6 +677,14 @@ class C35(C.Check):
         todo.append({"kind": "shiftfft", "shape": [4, 6], "dist": [0.5, 1.0], "dir": 0, "all_dirs": True, "seed": 2})
         todo.append({"kind": "shiftfft", "shape": [4, 6], "dist": [0.5, 1.0], "dir": 1, "seed": 1})
         n, stats = 0, {}
+        for c, ref in getattr(self, "sigma_obs", []):
+            n += 1
+            stats["los_sigma"] = stats.get("los_sigma", 0) + 1
+            f = los_sigma_failure(c, ref)
+            if f:
+                res.add_failing({"fn": "los_sigma", "class": f[0]}, f[1], _js(c))
+                if len(res.failing) >= 3:
+                    break
         for kk, c in enumerate(todo):
             if kk >= n_hints and res.failing:
                 break
